@@ -15,7 +15,10 @@
      I/O error of sendLoop/readLoop (return class ROther, no lastFailed/reset bookkeeping).
    * Config.isValid() is assumed to succeed (a configuration error returns before dialling).
    * Processing of a connection stops at the first Upgrade / injected ERROR: server lines
-     arriving after the acknowledgement are outside the alphabet of C10. *)
+     arriving after the acknowledgement are outside the alphabet of C10.
+   * The peer may hang up at the very moment it acknowledges a policy: cs_end is consulted on
+     an upgrade too (EndIOError = group.Wait() returns readLoop's error although handleCAP
+     called Close()).  Since 52091d0 the redial does not depend on it. *)
 Require Import Bytes CapLib StsState Cap.
 
 (* Client.server(): the port joined to Config.Server *)
@@ -77,6 +80,30 @@ Record conn_log := mkLog {
   l_outs : list (list cap_out)     (* handleCAP's outputs per server line *)
 }.
 
+(* One established connection from newConn's return to the moment all four loops are gone:
+   its log, what group.Wait() returned (as a class), the policy held then, and the clock of a
+   clean Close().  handleCAP's own Close() on an upgrade makes the loops return nil unless
+   the peer hangs up at the same moment (cs_end = EndIOError: readLoop's error wins). *)
+Definition conn_run (ord : list str -> list str) (cfg : cap_cfg) (tls : bool) (s : strict_transport)
+           (c : conn_script) (p : Z) : conn_log * ret_class * strict_transport * option Z :=
+  if tls && negb (cs_hs_ok c) then (mkLog p tls true [], ROther, s, None)
+  else
+    let r := run_events ord cfg tls (cap_init s) (if c_tracking cfg then cs_events c else []) in
+    let st := fst (fst r) in
+    let log := mkLog p tls true (snd (fst r)) in
+    match snd r with
+    | StopError => (log, RErrEvent, st_sts st, None)
+    | _ =>
+        match cs_end c with
+        | EndClosed now => (log, RNil, st_sts st, Some now)
+        | EndIOError => (log, ROther, st_sts st, None)
+        end
+    end.
+
+(* internalConnect.  After the connection is gone (tail of the function, as repaired in
+   52091d0): beginUpgrade is tested whatever group.Wait() returned - if set it is cleared
+   and the loop dials again; otherwise a clean close under a policy refreshes
+   persistenceReceived and the error (or nil) is returned. *)
 Fixpoint start_conn (ord : list str -> list str) (cfg : cap_cfg) (port : Z)
          (s : strict_transport) (conns : list conn_script)
   : list conn_log * ret_class * strict_transport :=
@@ -87,24 +114,18 @@ Fixpoint start_conn (ord : list str -> list str) (cfg : cap_cfg) (port : Z)
       match new_conn cfg (cs_dial_ok c) (cs_dial_now c) s with
       | (None, err, s') => ([mkLog p (c_ssl cfg || sts_enabled s) false []], err, s')
       | (Some tls, _, s') =>
-          if tls && negb (cs_hs_ok c) then ([mkLog p tls true []], ROther, s')
+          let o := conn_run ord cfg tls s' c p in
+          let log := fst (fst (fst o)) in
+          let err := snd (fst (fst o)) in
+          let s_end := snd (fst o) in
+          if begin_upgrade s_end then
+            let rec := start_conn ord cfg port (set_begin_upgrade false s_end) rest in
+            (log :: fst (fst rec), snd (fst rec), snd rec)
           else
-            let r := run_events ord cfg tls (cap_init s')
-                                (if c_tracking cfg then cs_events c else []) in
-            let st := fst (fst r) in
-            let log := mkLog p tls true (snd (fst r)) in
-            match snd r with
-            | StopUpgrade =>
-                let rec := start_conn ord cfg port (set_begin_upgrade false (st_sts st)) rest in
-                (log :: fst (fst rec), snd (fst rec), snd rec)
-            | StopError => ([log], RErrEvent, st_sts st)
-            | StopNone =>
-                match cs_end c with
-                | EndClosed now =>
-                    ([log], RNil,
-                     if sts_enabled (st_sts st) then set_received now (st_sts st) else st_sts st)
-                | EndIOError => ([log], ROther, st_sts st)
-                end
-            end
+            ([log], err,
+             match err, snd o with
+             | RNil, Some now => if sts_enabled s_end then set_received now s_end else s_end
+             | _, _ => s_end
+             end)
       end
   end.
